@@ -37,6 +37,10 @@ CLAIMED = {
    text="Machine-checked proof (Lean 4, full): dict refines a finite map (add_refines, containsKey/tryFind/item_refines, keys/kvs_enumerates with Nodup for EVERY enumeration order, toDict_last), strings laws for all byte strings (concat_split, concat_splitN, splitN2, hasPrefix/hasSuffix_iff, trimSuffix_append, argument-order theorems) over a transcription of Go's genSplit/Index, buf_accumulates, frt thunk/tuple laws, and toS_total: for every reflect kind the accessor chosen by the REGENERATED kind switch is legal (false before fix a41e038: toS_unfixed_panics). Tied to /repo by regenerated inventories + toS arms and by lib.dict/lib.str/lib.buf/lib.tos correspondence streams against the real packages.",
    design="§5 C14", technique="Lean 4 theorems (refinement, list laws, decide over a regenerated table) + correspondence with the real packages",
    note="Trusted: Lean kernel; Go map = duplicate-free association list; transcription of Go's strings functions (explode only for single-byte characters); reflect accessor contract; float formatting not compared."),
+ "C18": dict(
+   text="Machine-checked proof (Lean 4, full): readme_shape proves for every list file and every file system in which all listed files are readable that the model of processListFile writes header ++ intercalate \"\\n\" (one section per non-empty list line, in list order), each section = title (text after the first space, else the file name), the file's content verbatim inside a fence, and the link to gen_<base>.go; missing_fails proves that an unreadable listed file yields a failure with nothing written. Built on the C14 string theorems (splitN2, concat_spec). Tied to /repo by running the tool rebuilt from gen_build_sample_md.go on generated directories and on samples/filelist.txt (README bytes + exit status vs the model).",
+   design="§5 C18", technique="Lean 4 theorems over the library models + correspondence with the rebuilt tool on generated directories",
+   note="Trusted: Lean kernel; C13/C14 library models; filepath functions not modelled (plain names); Sprintf with one %s = verbatim insertion."),
 }
 
 NA = {
